@@ -29,4 +29,22 @@ PROPS = {
         "units": [U("limitl", "TestC12", q(40000), q(400000, 16))],
         "assumptions": [BUBBLE, RAPID, "timing clauses are asserted only for an always-ready consumer"],
     },
+    "C13": {
+        "level": "exploration",
+        "units": [
+            U("pure", "TestC13", q(300000), q(4000000, 8)),
+            U("pure", "FuzzC13", None, {"fuzztime": 90}, kind="fuzz", fuzz="FuzzC13", fuzz_fields=["interval_ns", "quantity", "minimum_ns"]),
+        ],
+        "assumptions": [RAPID, "oracle arithmetic is math/big (exact)", "native fuzzing (thorough tier only) is coverage guided and not reproducible from the seed; its saved failing input is replayed through the same oracle"],
+    },
+    "C14": {
+        "level": "exploration",
+        "units": [U("pure", "TestC14", q(150000), q(1500000, 8))],
+        "assumptions": [RAPID, "stays where dividend * priority < 2^53 (exactly representable products), as the property states", "Rate tolerance n/2 + n*2^-16 against exact rationals"],
+    },
+    "C18": {
+        "level": "exploration",
+        "units": [U("pure", "TestC18", q(12000), q(40000, 16, timeout=3000))],
+        "assumptions": [RAPID, "'the divider gives' is evaluated by calling the library's Fair/Rate on each subset with a fresh map; absent entry = 0"],
+    },
 }
